@@ -136,7 +136,7 @@ class StreamDomain(ObjectDomain):
 class Driver:
     """One object of a repository class, constructed and then called method after method."""
 
-    def __init__(self, ctx, cls, dom, depth=16):
+    def __init__(self, ctx, cls, dom, depth=24):
         self.ctx, self.cls, self.dom = ctx, cls, dom
         dom.root_class = cls
         self.it = Interp(dom, max_depth=depth)
